@@ -41,7 +41,7 @@ var (
 	fProbe  = flag.String("probe", "", "print source, assembled machine and results of graph:config (indices of the tier's enumeration)")
 	fBench  = flag.Int("bench", 0, "run about N configurations in-process and print the time (development aid)")
 	fCount  = flag.Bool("count", false, "only enumerate and print the size of the universe")
-	fWorker = flag.Int("workers", 0, "number of worker subprocesses (default: min(14, NumCPU-2))")
+	fWorker = flag.Int("workers", 0, "number of worker subprocesses (default: min(12, NumCPU-2))")
 )
 
 func boundsFor(thorough bool) Bounds {
@@ -64,19 +64,19 @@ func boundsFor(thorough bool) Bounds {
 
 type cfgResult struct {
 	G, C       int
-	Start      bool   `json:",omitempty"` // progress marker written before the config is touched
-	Class      string `json:",omitempty"` // "" = both oracles passed on every input
-	Stage      string `json:",omitempty"`
-	Err        string `json:",omitempty"`
-	Evals      int    `json:",omitempty"`
-	NonTrivial bool   `json:",omitempty"`
-	NBad       int    `json:",omitempty"`
+	Start      bool    `json:",omitempty"` // progress marker written before the config is touched
+	Class      string  `json:",omitempty"` // "" = both oracles passed on every input
+	Stage      string  `json:",omitempty"`
+	Err        string  `json:",omitempty"`
+	Evals      int     `json:",omitempty"`
+	NonTrivial bool    `json:",omitempty"`
+	NBad       int     `json:",omitempty"`
 	BadIn      []uint8 `json:",omitempty"`
 	Got        []uint8 `json:",omitempty"`
 	Want       []uint8 `json:",omitempty"`
-	OutHash    string `json:",omitempty"` // hash of the outputs over all input vectors (metamorphic oracle)
-	DumpHash   string `json:",omitempty"` // hash of the assembled machine
-	Done       bool   `json:",omitempty"` // worker finished its range
+	OutHash    string  `json:",omitempty"` // hash of the outputs over all input vectors (metamorphic oracle)
+	DumpHash   string  `json:",omitempty"` // hash of the assembled machine
+	Done       bool    `json:",omitempty"` // worker finished its range
 }
 
 func hashOf(s string) string {
@@ -219,7 +219,11 @@ func spawn(tier string, gs map[int]*Graph, args []string, sink func(cfgResult), 
 	cmd.Stdin = strings.NewReader(string(gj))
 	var errb strings.Builder
 	cmd.Stderr = &limitedWriter{b: &errb, max: 4000}
-	cmd.Env = append(os.Environ(), "GOMAXPROCS=2", "GOGC=1600", "GOMEMLIMIT=2GiB")
+	procs := "2"
+	if v := os.Getenv("C06_CHILD_PROCS"); v != "" { // development aid
+		procs = v
+	}
+	cmd.Env = append(os.Environ(), "GOMAXPROCS="+procs, "GOGC=1600", "GOMEMLIMIT=2GiB")
 	if err := cmd.Start(); err != nil {
 		pw.Close()
 		pr.Close()
@@ -396,8 +400,8 @@ func explore(run *vlib.Run, b Bounds, graphs []*Graph) {
 	workers := *fWorker
 	if workers <= 0 {
 		workers = runtime.NumCPU() - 2
-		if workers > 14 {
-			workers = 14
+		if workers > 12 {
+			workers = 12
 		}
 		if workers < 1 {
 			workers = 1
@@ -787,8 +791,8 @@ func explore(run *vlib.Run, b Bounds, graphs []*Graph) {
 	run.Set("bounds", map[string]any{
 		"max_instances": b.MaxInst, "fragment_kinds": kindNames(), "max_external_inputs": b.MaxExtIn, "max_external_outputs": b.MaxExtOut,
 		"max_fanout_per_producer_port": b.MaxFanout, "input_values_per_external_input": []int{0, 1, 2, 127, 255}, "register_size": 8, "iomode": "async (composer default)",
-		"partitions": "all set partitions of the instances (Bell(n)) x all topological orders inside each block",
-		"graphs": "all DAGs (one representative per instance relabelling), every input port linked, every instance live, every external input used",
+		"partitions":                   "all set partitions of the instances (Bell(n)) x all topological orders inside each block",
+		"graphs":                       "all DAGs (one representative per instance relabelling), every input port linked, every instance live, every external input used",
 		"restriction_at_max_instances": restrictionText(b),
 	})
 	run.Set("graphs", len(graphs))
